@@ -88,6 +88,8 @@ func (db *MemDB) Store(_ context.Context, duty core.Duty, unsignedSet core.Unsig
 		for _, unsignedData := range unsignedSet {
 			err := db.storeProposalUnsafe(unsignedData)
 			if err != nil {
+				db.resolveProQueriesUnsafe() // Entries stored before the failure must still unblock their queries.
+
 				return err
 			}
 		}
@@ -99,6 +101,8 @@ func (db *MemDB) Store(_ context.Context, duty core.Duty, unsignedSet core.Unsig
 		for pubkey, unsignedData := range unsignedSet {
 			err := db.storeAttestationUnsafe(pubkey, unsignedData)
 			if err != nil {
+				db.resolveAttQueriesUnsafe() // Entries stored before the failure must still unblock their queries.
+
 				return err
 			}
 		}
@@ -109,6 +113,8 @@ func (db *MemDB) Store(_ context.Context, duty core.Duty, unsignedSet core.Unsig
 		for _, unsignedData := range unsignedSet {
 			err = db.storeAggAttestationUnsafe(unsignedData)
 			if err != nil {
+				db.resolveAggQueriesUnsafe() // Entries stored before the failure must still unblock their queries.
+
 				return err
 			}
 		}
@@ -118,6 +124,8 @@ func (db *MemDB) Store(_ context.Context, duty core.Duty, unsignedSet core.Unsig
 		for _, unsignedData := range unsignedSet {
 			err := db.storeSyncContributionUnsafe(unsignedData)
 			if err != nil {
+				db.resolveContribQueriesUnsafe() // Entries stored before the failure must still unblock their queries.
+
 				return err
 			}
 		}
